@@ -144,6 +144,36 @@ def check(run):
             okc = base.op == 'mu' or base.op == 'store' or any(x.op == 'mu' for x in unwrap_gamma(base))
     run.check(okc, 'PAIRED', 'DHTV: centroid = mean over the segment bins of the CURRENT features', fn.loc(), '', 'the time centroid is not np.mean(features[:, start:end, :], axis=1) of the running features',
               construct=f'PAIRED::{q}::centroid')
+    # every segment of the plan gets the number of passes the plan gives it: the loop over the passes runs `iterations` times (range(iterations); any other bounds are folded)
+    from ..inteval import int_eval, UNKNOWN
+    from ..terms import T as _T
+    n_pass = 0
+    for L_ in [l for l in g.loops if l.kind == 'for']:
+        it_ = strip_views(L_.iter) if isinstance(L_.iter, _T) else None
+        if it_ is None or not is_call_to(it_, 'builtin.range'):
+            continue
+        planned = [y for a_ in call_parts(it_)[1] for y in walk_terms(a_) if y.op == 'unpack' and y.args[1] == 0 and y.args[2] == 3]
+        if not planned:
+            continue
+        n_pass += 1
+        verdict = True
+        for n_ in (1, 2, 5):
+            # the planned count is the only unknown of the bounds: substitute it
+            env_ = {('term', p_.id): n_ for p_ in planned}
+            vals = [int_eval(strip_views(a_), env_) for a_ in call_parts(it_)[1]]
+            if any(v is UNKNOWN or not isinstance(v, int) for v in vals):
+                verdict = None
+                break
+            if len(range(*vals)) != n_:
+                verdict = (n_, len(range(*vals)))
+                break
+        if verdict is None:
+            run.unresolved('PLAN', 'DHTV: every planned segment gets its number of passes', fn.loc(L_.node), 'bounds of the loop over the passes are not folded')
+        else:
+            run.check(verdict is True, 'PLAN', 'DHTV: every planned segment gets its number of passes', fn.loc(L_.node), '',
+                      f'a segment planned with {verdict[0]} pass(es) gets {verdict[1]}: with one planned pass the segment is never aligned although the plan covers its bins'
+                      if verdict is not True else '', construct=f'PLAN::{q}::passes')
+    run.floor('DHTV loops over the planned passes', n_pass, 1)
     # ... as a fraction: not truncated into a buffer of the mask's (possibly integer) dtype
     from ..opt import check_result_buffers
     check_result_buffers(run, A, ('pb_bss.permutation_alignment',))
